@@ -183,6 +183,14 @@ def pred_1d(case):
                         % np.abs(again - fresh.coeffs).max())
     if not np.array_equal(spl.coeffs, c):
         raise Violation("C08:%s:reuse" % tag, "interpolating the first data again does not reproduce the first coefficients")
+    # the interpolator's other service (quadrature weights, a transposed solve with the same factorisation) must not
+    # change how it interpolates afterwards
+    with crash_is_violation("C08:interp1d", "get_quadrature_coefficients followed by compute_interpolant"):
+        interp.get_quadrature_coefficients()
+        interp.compute_interpolant(other.copy(), spl)
+    if not np.array_equal(spl.coeffs, fresh.coeffs):
+        raise Violation("C08:%s:reuse-after-quadrature" % tag, "after get_quadrature_coefficients() the interpolator gives coefficients "
+                        "differing by %.3e from a fresh one" % np.abs(spl.coeffs - fresh.coeffs).max())
     nontriv = float(np.ptp(data)) > 0 and (len(space["breaks"]) - 1) >= 3
     return {"nontrivial": nontriv, "labels": [tag, kind, "deg%d" % p,
                                               "uniform" if space["uniform_breaks"] else "nonuniform"]}
